@@ -1294,6 +1294,10 @@ func runCase(t *testing.T, part string, v engine.Vec) engine.Result {
 			res = discoverCase(v)
 		case "issuer-flows":
 			res = flowCase(v)
+		case "request-object-shapes":
+			res = roCase(v)
+		case "pkce-honoured":
+			res = pkceCase(v)
 		default:
 			panic("part " + part)
 		}
@@ -1495,6 +1499,39 @@ func TestCheck(t *testing.T) {
 			Ks:        engine.Pick(c, []int{0, 1}, []int{1, 2}),
 			Skip:      flowSkip,
 			NewWorker: worker("issuer-flows"),
+		})
+	}
+	// "advertised request-object support is honoured": every way of carrying each of the six
+	// parameters of OIDC Core 6.1 (full product, both routers), and the way the object is sent and
+	// signed / the issuer it is addressed to against every single deviation of everything else.
+	if only == "" || only == "request-object-shapes" {
+		c.RunE1(engine.E1{
+			Part:  "request-object-shapes",
+			Space: roSpace,
+			Groups: [][]string{
+				{"client_id", "response_type", "scope", "redirect_uri", "state", "nonce", "router"},
+				{"extra", "method", "signer", "aud", "reqobj", "router"},
+				{"issuer", "host", "reqobj", "method", "router"},
+			},
+			Ks:        engine.Pick(c, []int{0, 1, 1}, []int{1, 2, 2}),
+			Skip:      roSkip,
+			NewWorker: worker("request-object-shapes"),
+		})
+	}
+	// "every advertised PKCE method is honoured": client kind x challenge x verifier x carrier x
+	// GET/POST x router in full; client x challenge x verifier x router against every single deviation
+	// of the rest (history, issuer strategy, Host, flags, capabilities, endpoints).
+	if only == "" || only == "pkce-honoured" {
+		c.RunE1(engine.E1{
+			Part:  "pkce-honoured",
+			Space: pkceSpace,
+			Groups: [][]string{
+				{"client", "challenge", "verifier", "carrier", "method", "reqobj", "router"},
+				{"client", "challenge", "verifier", "router"},
+			},
+			Ks:        engine.Pick(c, []int{0, 1}, []int{1, 2}),
+			Skip:      pkceSkip,
+			NewWorker: worker("pkce-honoured"),
 		})
 	}
 	ri, li, ei, pi := provSpace.Idx("router"), provSpace.Idx("legacyEP"), provSpace.Idx("eps"), provSpace.Idx("probe")
